@@ -109,6 +109,13 @@ func (a *Activation) callContract(ins *ssa.Call, g *ssa.Function, spec *FuncSpec
 		env.st, env.old = pre, pre
 	}
 	for i, r := range spec.Requires {
+		if r.Internal && funcPkg(g) != funcPkg(a.fn) {
+			// internal precondition ("requires internal e"): it speaks about the callee package's private proof layer, which
+			// this package cannot even name. It is an obligation at every call site inside the callee's package and an
+			// UNCHECKED ASSUMPTION at this one; recorded so that the evidence lists it.
+			x.externals["internal precondition of "+fullKey(g)+" not checked at call sites outside its package: "+r.Text] = true
+			continue
+		}
 		label := r.Label
 		if label == "" {
 			label = fmt.Sprint(i + 1)
